@@ -34,6 +34,7 @@ def run(ctx):
         ctx.guard("C13", "reset", lambda: gen.reset_equals_new(ctx, prog))
         ctx.guard("C13", "reset-side", lambda: gen.reset_side_conditions(ctx, prog))
         ctx.guard("C13", "summaries", lambda: summary.check(ctx, prog, 'internals::generate::Generator', floor=5))
+        ctx.guard("C13", "path summaries", lambda: summary.check_paths(ctx, prog, 'internals::generate::Generator', floor=2))
         ctx.guard("C13", "casts", lambda: casts.census(ctx, prog, scope='internals::generate::', floor=3))
         if not c.startswith("unsafe"):
             ctx.guard("C13", "piece", lambda: piece.piece_effects(ctx, prog))
